@@ -5,6 +5,8 @@ wt=/var/tmp/verif-try-$seed
 git -C /repo worktree add -q --detach $wt HEAD || exit 1
 trap 'git -C /repo worktree remove --force $wt >/dev/null 2>&1' EXIT
 git -C $wt apply /verif/seeded/$seed/patch.diff || { echo "patch does not apply"; exit 1; }
+mkdir -p /var/tmp/verif-try-out && cp /verif/UNCLAIMED_OBLIGATIONS.txt /verif/KNOWN_FINDINGS.txt /var/tmp/verif-try-out/ 2>/dev/null
+[ -f /verif/obligations.lock ] && cp /verif/obligations.lock /var/tmp/verif-try-out/
 for p in "$@"; do
   out=$(/verif/bin/govc check -repo $wt -prop $p -tier quick -verif /var/tmp/verif-try-out 2>&1)
   nv=$(echo "$out" | grep -c "^VIOLATION")
